@@ -190,5 +190,16 @@ var OBig = PhBig
 //go:noinline
 func dup(a int) int { return work(a) + 1100 }
 
+// dupS / Get: the same type and method names exist in fn2 and in the driver's package.
+type dupS struct{ Tag int }
+
+//go:noinline
+func (p *dupS) Get(a int) int { return work(a) + 1150 + p.Tag }
+
+var dupInst = &dupS{}
+
+// CallDupM reaches (*dupS).Get of this package.
+func CallDupM(a int) int { return dupInst.Get(a) }
+
 // CallDup reaches the unexported dup of this package.
 func CallDup(a int) int { return dup(a) }
